@@ -135,17 +135,14 @@ Definition effective (op : copyop) (d : tdef) : cmode :=
   end.
 
 (* copies the traits of `c` in order into the new object `o` (trait_set / copy_traits loop) *)
-(* clone_traits 1664-1668 + copy_traits 1575-1580: when copyable_trait_names() is EMPTY (every trait
-   transient) the empty list reaches copy_traits, whose `len(traits) == 0` branch means "all traits":
-   the transient traits are copied too.  Pickling (__getstate__) is not affected. *)
-Definition copies_all (op : copyop) (c : cls) : bool :=
-  match op with Pickle => false | _ => forallb (fun p => td_transient (snd p)) c end.
-
+(* clone_traits resolves traits=None to copyable_trait_names() (transient is not True) and, since repair
+   28581b3, skips copy_traits altogether when that list is empty (an empty list given to copy_traits itself
+   still means "all traits", but that is not a C14 operation): transient traits are never copied. *)
 Fixpoint copy_into (op : copyop) (c0 c : cls) (src : vals) (o : Z) (dst : vals) (n : Z) : vals * Z :=
   match c with
   | [] => (dst, n)
   | (k, d) :: r =>
-      if td_transient d && negb (copies_all op c0)
+      if td_transient d
       then copy_into op c0 r src o dst n                             (* not in the state / not copyable *)
       else
         match vget src k with
